@@ -1120,7 +1120,25 @@ impl<'a> Binder<'a> {
             | ScalarFunction::Ceil
             | ScalarFunction::Floor
             | ScalarFunction::Sqrt => DataTypeKind::Double,
-            ScalarFunction::Coalesce | ScalarFunction::NullIf | ScalarFunction::Cast => args
+            // COALESCE yields any of its arguments: numeric arguments of different kinds give the
+            // widest of them (taking the first argument's kind made a wider second argument fail
+            // to cast, or lose its fraction).
+            ScalarFunction::Coalesce => {
+                let kinds: Vec<DataTypeKind> = args
+                    .iter()
+                    .map(|a| a.data_type())
+                    .filter(|k| !k.is_null())
+                    .collect();
+                if kinds.len() > 1 && kinds.iter().all(|k| k.is_numeric()) {
+                    kinds
+                        .into_iter()
+                        .reduce(|a, b| self.wider_numeric(a, b))
+                        .unwrap_or(DataTypeKind::Null)
+                } else {
+                    kinds.first().copied().unwrap_or(DataTypeKind::Null)
+                }
+            }
+            ScalarFunction::NullIf | ScalarFunction::Cast => args
                 .first()
                 .map(|a| a.data_type())
                 .unwrap_or(DataTypeKind::Null),
